@@ -9,6 +9,7 @@ import (
 	"path/filepath"
 	"reflect"
 	"regexp"
+	"runtime/debug"
 	"sort"
 	"strconv"
 	"strings"
@@ -112,6 +113,9 @@ func c17Compare(intact, faulty *dump.Dump) []c17Finding {
 			}
 			if fo.MetaRes.OK() && (!io.MetaRes.OK() || !reflect.DeepEqual(io.Dims, fo.Dims) || io.TypeClass != fo.TypeClass || io.TypeSize != fo.TypeSize || io.Layout != fo.Layout) {
 				add("different-answer:metadata", map[string]any{"path": fo.Path, "intact_dims": io.Dims, "faulty_dims": fo.Dims})
+			}
+			if fo.IterSum != "" && io.IterSum != "" && fo.IterSum != io.IterSum {
+				add("different-answer:ChunkIterator", map[string]any{"path": fo.Path, "calls_repeated_after_a_failure": fo.IterRetried})
 			}
 			if fo.ReadRes.OK() && (!io.ReadRes.OK() || !reflect.DeepEqual(io.Read, fo.Read)) {
 				add("different-answer:Read", map[string]any{"path": fo.Path, "intact_res": io.ReadRes, "intact_n": len(io.Read), "faulty_n": len(fo.Read), "first_diff": firstDiffU64(io.Read, fo.Read)})
@@ -425,6 +429,12 @@ func c17Trunc(c *ev.Ctx, cs c17Case) {
 		}
 		c17Report(c, "truncation", c17Compare(intact, ft), ext.kindAt(uint64(l)), map[string]any{"seed": name, "length": l, "size": len(b)})
 		ran++
+		if ran%2048 == 0 {
+			// thousands of complete dumps in one process under an address-space limit: hand
+			// freed spans back (decompressors allocate megabytes per chunk; what is judged is the
+			// library's answer to each input, not this process's fragmentation)
+			debug.FreeOSMemory()
+		}
 	}
 	c.Evals(int64(ran))
 	c.Count("T:truncated_copies_dumped", int64(ran))
